@@ -11,6 +11,7 @@ import (
 	"verifharness/core"
 	"verifharness/hs"
 	"verifharness/pg"
+	"verifharness/tr"
 )
 
 // C19 - Session lifecycle: middleware order, context propagation, terminate hook.
@@ -19,7 +20,7 @@ type c19 struct{ base }
 
 func init() {
 	core.Register(c19{base{id: "C19", level: "exploration", quickB: 16, thoroughB: 32,
-		rule: "all (n, failing position) pairs for n = 0..6 session middlewares (each adds context key i, asserts keys 0..i-1, records the transport write offset at invocation) x {with, without password auth} x {with, without terminate hook} x ending {Terminate, EOF, Terminate pipelined after a query} x generated command histories (simple queries, Parse/Bind/Execute batches, failing queries); parser and statement callbacks capture their context: Err()==nil on entry and exit, all middleware keys, client/server parameters, remote address and type map present; every captured per-command context must report context.Canceled once the next command is served and at connection end; a failing middleware must end the connection with no command served; the terminate hook runs exactly once iff Terminate was sent, and the server closes the connection. Non-trivial = n >= 2 or a failing position or a Terminate ending; distinct = (n, failing position, auth, hook, ending, history shape).",
+		rule: "all (n, failing position) pairs for n = 0..6 session middlewares (each adds context key i, asserts keys 0..i-1, records the transport write offset at invocation) x {with, without password auth} x {with, without terminate hook} x {transport whose Close succeeds / reports an error} x ending {Terminate, EOF, Terminate pipelined after a query} x generated command histories (simple queries, Parse/Bind/Execute batches, failing queries); parser and statement callbacks capture their context: Err()==nil on entry and exit, all middleware keys, client/server parameters, remote address and type map present; every captured per-command context must report context.Canceled once the next command is served and at connection end; a failing middleware must end the connection with no command served; the terminate hook runs exactly once iff Terminate was sent, and the server closes the connection. Non-trivial = n >= 2 or a failing position or a Terminate ending; distinct = (n, failing position, auth, hook, ending, history shape).",
 		need:        []string{"connections", "middleware_invocations", "callback_contexts_checked", "command_contexts_cancelled", "middleware_failures", "terminate_hook_runs", "eof_endings"},
 		assumptions: commonAssumptions}})
 }
@@ -170,7 +171,14 @@ func (ch c19) runConn(c *core.Ctx, env *hs.Env, cfg c19cfg, ending string, rng *
 	viol := func(rule, sig, detail string) {
 		c.Violate(rule, sig, fmt.Sprintf("config %+v ending %s: %s", cfg, ending, detail), cs)
 	}
-	cl := hs.NewClient(env.Dial(st))
+	conn := tr.NewConn(st)
+	if rng.Intn(4) == 0 {
+		// a transport whose Close reports an error (as a TLS connection does when the peer is gone)
+		conn.CloseErr = errors.New("close: peer already gone")
+		c.Count("connections_with_failing_close", 1)
+	}
+	env.L.DialConn(conn)
+	cl := hs.NewClient(conn)
 	cl.C.Send(pg.Startup([][2]string{{"user", "lifecycle"}}))
 	cl.C.Quiesce()
 	if cfg.Auth {
